@@ -149,10 +149,11 @@ class ModRef(AV):
 
 
 class SymObj(AV):
-    __slots__ = ('path', 'cls')
+    __slots__ = ('path', 'cls', 'domain')
 
-    def __init__(self, path: str, cls: Optional[ClassInfo] = None):
-        self.path, self.cls = path, cls
+    def __init__(self, path: str, cls: Optional[ClassInfo] = None, domain: Optional[tuple] = None):
+        # domain: the integer values this unknown (an enum member) can take, when the rule knows them
+        self.path, self.cls, self.domain = path, cls, domain
 
     def __repr__(self):
         return f'${self.path}'
@@ -286,6 +287,9 @@ class Evaluator:
         self.calls_opaque: List[str] = []
         self.loop_counter = itertools.count(1)
         self.pref_slots = pref_slots or {}
+        # work budget: a refactoring that multiplies paths must end in Undecided (loud), never in a hang
+        self.budget = 60000
+        self.max_evals = 300000
 
     # ----------------------------------------------------------------------------------
     # helpers on values
@@ -495,6 +499,18 @@ class Evaluator:
                     return self._bool_from(Test('opaque', key=f'{o.path} == {c.value!r}'), neg)
                 if isinstance(o, (Scalar, EnumVal, Inst, Tup, Lst)):
                     return Const(neg)
+        # an unknown member of a known finite set against a number: decided when every member agrees
+        for sym, other, flip in ((l, r, False), (r, l, True)):
+            if isinstance(sym, SymObj) and sym.domain and isinstance(other, (Scalar, EnumVal)):
+                o = Scalar(other.value).rf if isinstance(other, EnumVal) else other.rf
+                if o.is_const():
+                    k = o.const_value()
+                    import operator as _op
+                    f = {ast.Eq: _op.eq, ast.NotEq: _op.ne, ast.Lt: _op.lt, ast.LtE: _op.le, ast.Gt: _op.gt,
+                         ast.GtE: _op.ge}[type(op)]
+                    verdicts = {(f(k, v) if flip else f(v, k)) for v in sym.domain}
+                    if len(verdicts) == 1:
+                        return Const(verdicts.pop())
         a, b = self.scalar(l), self.scalar(r)
         d = a - b
         if d.is_const():
@@ -540,6 +556,9 @@ class Evaluator:
     # expressions
     # ----------------------------------------------------------------------------------
     def eval(self, node: ast.AST, st: State, ctx: Ctx) -> AV:
+        self.evals = getattr(self, 'evals', 0) + 1
+        if self.evals > self.max_evals:
+            raise Undecided(f'evaluation budget exhausted (path explosion) in {ctx.func.qualname if ctx.func else ctx.module.path}')
         m = getattr(self, 'e_' + type(node).__name__, None)
         if m is None:
             raise Undecided(f'expression {type(node).__name__} at {ctx.module.path}:{getattr(node, "lineno", 0)}')
@@ -1086,6 +1105,10 @@ class Evaluator:
         kwargs: Dict[str, AV] = {}
         for k in node.keywords:
             if k.arg is None:
+                dv = self.eval(k.value, st, ctx)
+                if isinstance(dv, DictVal) and all(isinstance(x, str) for x in dv.items):
+                    kwargs.update(dv.items)
+                    continue
                 raise Undecided('**kwargs')
             kwargs[k.arg] = self.eval(k.value, st, ctx)
         return self.lift(lambda f: self.call(f, args, kwargs, st, ctx, node), fv)
@@ -1336,6 +1359,11 @@ class Evaluator:
             for k, v in kwargs.items():
                 st.heap[obj.oid][k] = v
             return obj
+        if any(b.split('.')[-1] == 'TypedDict' for b in self.prog.base_names(ci)):
+            # a TypedDict class called with keywords builds a plain dict
+            if args:
+                raise Undecided(f'TypedDict {ci.name} called with positional arguments')
+            return DictVal({k: v for k, v in kwargs.items()})
         if args or kwargs:
             raise Undecided(f'constructor of {ci.name} with arguments but no __init__')
         return obj
@@ -1576,6 +1604,9 @@ class Evaluator:
 
     def exec_block(self, stmts: List[ast.stmt], st: State, ctx: Ctx):
         """Continuation-passing walk: returns an outcome tree (Leaf | Branch)."""
+        self.budget -= 1
+        if self.budget < 0:
+            raise Undecided(f'evaluation budget exhausted (path explosion) in {ctx.func.qualname if ctx.func else ctx.module.path}')
         for i, s in enumerate(stmts):
             rest = stmts[i + 1:]
             if isinstance(s, (ast.Assign, ast.AnnAssign, ast.AugAssign, ast.Expr)):
